@@ -29,17 +29,88 @@ def parse_contract_file(path):
             loops[cur] += ln
     return loops
 
+def eval_type_exprs(raw_json_text, inst_cpp, include_dirs, workdir, clang_flags=()):
+    """sizeof(T)/alignof(T) left unevaluated inside printed template-ids: evaluate them with the compiler"""
+    import subprocess
+    exprs = set()
+    for m in re.finditer(r'\b(sizeof|alignof)\(', raw_json_text):
+        # only inside type strings (qualType values); balance parentheses
+        i = m.end()
+        depth = 1
+        while i < len(raw_json_text) and depth:
+            c = raw_json_text[i]
+            if c == '(':
+                depth += 1
+            elif c == ')':
+                depth -= 1
+            elif c in '"\n':
+                break
+            i += 1
+        if depth == 0:
+            e = raw_json_text[m.start():i]
+            if '...' not in e and 'type-parameter' not in e:
+                exprs.add(e)
+    if not exprs or inst_cpp is None:
+        return {}
+    exprs = sorted(exprs)
+    good = {}
+    # expressions over dependent names do not compile; probe each one separately but in one TU via SFINAE-free
+    # trial: compile individually only if the batch fails
+    def build(es):
+        lines = ['#include "%s"' % os.path.abspath(inst_cpp), '#include <stdio.h>', 'int main() {']
+        for k, e in enumerate(es):
+            lines.append('  printf("%d %%zu\\n", (size_t)(%s));' % (k, e))
+        lines.append('  return 0; }')
+        src = os.path.join(workdir, 'tyexpr.cpp')
+        exe = os.path.join(workdir, 'tyexpr')
+        open(src, 'w').write('\n'.join(lines) + '\n')
+        cmd = ['clang++', '-std=c++20', '-fno-access-control', '-Wno-everything', '-O0', '-ffunction-sections', '-Wl,--gc-sections']
+        for d in include_dirs:
+            cmd += ['-I', d]
+        cmd += list(clang_flags) + [src, '-o', exe]
+        r = subprocess.run(cmd, stdout=subprocess.PIPE, stderr=subprocess.PIPE, text=True)
+        if r.returncode != 0:
+            return None, r.stderr
+        r = subprocess.run([exe], stdout=subprocess.PIPE, text=True)
+        os.unlink(exe)
+        out = {}
+        for ln in r.stdout.splitlines():
+            k, v = ln.split()
+            out[es[int(k)]] = v
+        return out, ''
+    res, err = build(exprs)
+    if res is None:
+        # drop the expressions the compiler rejects (dependent names from template patterns)
+        bad = set()
+        for ln in err.splitlines():
+            for e in exprs:
+                pass
+        ok = []
+        for e in exprs:
+            r1, _ = build([e])
+            if r1 is not None:
+                good.update(r1)
+        return good
+    return res
+
 class Extractor:
-    def __init__(self, ast_json, repo_root='/repo'):
+    def __init__(self, ast_json, repo_root='/repo', inst_cpp=None, include_dirs=(), workdir=None, clang_flags=()):
+        raw = open(ast_json).read()
+        self.type_exprs = {}
+        if inst_cpp is not None and ('sizeof(' in raw or 'alignof(' in raw):
+            self.type_exprs = eval_type_exprs(raw, inst_cpp, include_dirs, workdir or os.path.dirname(os.path.abspath(ast_json)), clang_flags)
+        del raw
         self.docs = load_docs(ast_json)
         self.ix = Index(self.docs)
         self.repo_root = repo_root
 
     def lower(self, roots, loop_contracts=None, names=None, exclude=(), extern=()):
         L = Lowering(self.ix, names=names)
+        L.type_exprs = self.type_exprs
         L.loop_contracts = loop_contracts or {}
         L.loop_contracts_used = set()
         L.global_of = lambda node: global_of(L, node)
+        L.probe_consts = {}
         L.force_extern = set(extern)
         self.L = L
         # roots
@@ -173,7 +244,13 @@ class Extractor:
                 w('\t%s%s;' % (cdecl(t, fname), al)); n += 1
             if n == 0:
                 w('\tchar __empty;')
-            w('};')
+            ral = ''
+            for a in r.node.get('inner', ()):
+                if a.get('kind') == 'AlignedAttr':
+                    av = self._aligned_value(a)
+                    if av:
+                        ral = ' __attribute__((aligned(%d)))' % av
+            w('}%s;' % ral)
         ri = 0
         while ri < len(L.record_order):     # record_order may grow while types are resolved
             emit_rec(L.record_order[ri])
@@ -211,6 +288,7 @@ class Extractor:
             emit_rec(L.record_order[ri]); ri += 1
         text = '\n'.join(out + [''] + list(L.static_vars.values()) + glob_lines + [''] + proto_lines + [''] + body_lines) + '\n'
         self.meta = meta
+        self.probe_consts = dict(L.probe_consts)
         self.externs = sorted(L.extern_funcs)
         self.records_used = [(r.cname, r.printed) for r in L.record_order]
         return text
@@ -242,6 +320,82 @@ class Extractor:
         return f
 
 
+def run_probe(ex, text, inst_cpp, include_dirs, workdir, clang_flags=()):
+    """Compile and run a C++ probe over the real headers: values of constexpr variables used by the
+    lowered code, and sizeof/alignof/offsetof of every lowered record (emitted as _Static_asserts)."""
+    import subprocess
+    L = ex.L
+    lines = ['#include "%s"' % os.path.abspath(inst_cpp), '#include <stdio.h>', '#include <stddef.h>', 'int main() {']
+    for cname, cxx in sorted(ex.probe_consts.items()):
+        lines.append('  printf("C %s %%lld\\n", (long long)(%s));' % (cname, cxx))
+    nrec = 0
+    for r in L.record_order:
+        if r.is_lambda or '(unnamed' in r.printed or '(lambda' in r.printed or getattr(r, 'local', False):
+            continue
+        cxx = r.printed.replace('(anonymous namespace)::', '')
+        if r.names and len(r.names) > 1:
+            cxx = r.names[1].replace('(anonymous namespace)::', '')
+        if not probe_nameable(L, r):
+            continue
+        nrec += 1
+        tag = 'union' if r.is_union else 'struct'
+        lines.append('  printf("S %s %s %%zu %%zu\\n", sizeof(%s), alignof(%s));' % (tag, r.cname, cxx, cxx))
+        for fname, fn, ft in r.fields:
+            if is_ref(ft) or fn.get('isBitfield') or not fn.get('name'):
+                continue
+            lines.append('  printf("O %s %s %s %%zu\\n", (size_t)__builtin_offsetof(%s, %s));' % (tag, r.cname, fname, cxx, fn['name']))
+    lines.append('  return 0; }')
+    src = os.path.join(workdir, 'probe.cpp')
+    exe = os.path.join(workdir, 'probe')
+    open(src, 'w').write('\n'.join(lines) + '\n')
+    cmd = ['clang++', '-std=c++20', '-fno-access-control', '-Wno-everything', '-O0']
+    for d in include_dirs:
+        cmd += ['-I', d]
+    cmd += list(clang_flags) + ['-ffunction-sections', '-Wl,--gc-sections', src, '-o', exe]
+    r = subprocess.run(cmd, stdout=subprocess.PIPE, stderr=subprocess.PIPE, text=True)
+    if r.returncode != 0:
+        raise ExtractError('constant/layout probe does not compile:\n%s' % r.stderr[-3000:])
+    r = subprocess.run([exe], stdout=subprocess.PIPE, stderr=subprocess.PIPE, text=True, timeout=60)
+    if r.returncode != 0:
+        raise ExtractError('constant/layout probe failed to run')
+    consts = {}
+    asserts = []
+    for ln in r.stdout.splitlines():
+        p = ln.split()
+        if p[0] == 'C':
+            consts[p[1]] = p[2]
+        elif p[0] == 'S':
+            asserts.append('_Static_assert(sizeof(%s %s) == %s, "layout: sizeof %s");' % (p[1], p[2], p[3], p[2]))
+            asserts.append('_Static_assert(_Alignof(%s %s) == %s, "layout: alignof %s");' % (p[1], p[2], p[4], p[2]))
+        elif p[0] == 'O':
+            asserts.append('_Static_assert(__builtin_offsetof(%s %s, %s) == %s, "layout: offsetof %s.%s");' % (p[1], p[2], p[3], p[4], p[2], p[3]))
+    def sub(m):
+        v = consts.get(m.group(1))
+        if v is None:
+            raise ExtractError('probe gave no value for %s' % m.group(1))
+        iv = int(v)
+        return '%d%s' % (iv, 'LL' if iv < 0 else 'ULL')
+    text = re.sub(r'@@CONST:([A-Za-z_0-9]+)@@', sub, text)
+    text += '\n/* layout self-check against the real C++ types (probe over /repo/include) */\n' + '\n'.join(asserts) + '\n'
+    for f in (exe,):
+        if os.path.exists(f):
+            os.unlink(f)
+    ex.layout_asserts = len(asserts)
+    ex.const_values = consts
+    return text
+
+def probe_nameable(L, r):
+    """can the record be named from namespace scope in C++? (not local to a function, not unnamed)"""
+    p = L.ix.parent.get(r.node['id'])
+    while p is not None:
+        k = p.get('kind')
+        if k in ('FunctionDecl', 'CXXMethodDecl', 'CXXConstructorDecl', 'CXXDestructorDecl', 'LambdaExpr', 'CompoundStmt', 'DeclStmt'):
+            return False
+        if k in ('CXXRecordDecl', 'ClassTemplateSpecializationDecl') and not p.get('name'):
+            return False
+        p = L.ix.parent.get(p.get('id')) if p.get('id') else None
+    return True
+
 def global_of(L, node):
     i = node['id']
     if i in L.globals:
@@ -268,8 +422,21 @@ def global_of(L, node):
     if t[0] == 'arr':
         fl.pre, fl.post = [], []
         txt = array_init_text(fl, init[0])
-        L.global_text[cname] = 'static const %s = %s;' % (cdecl(t, cname).replace('const ', ''), txt)
+        L.global_text[cname] = 'static %s = %s;' % (cdecl(t, cname).replace('const ', ''), txt)
         return cname
+    if node.get('constexpr') and t[0] == 'base' and t[2].get('kind') in ('builtin', 'enum') and not is_ref(t):
+        cxx = L.printed_name(node).replace('(anonymous namespace)::', '')
+        L.probe_consts[cname] = cxx
+        base_t = cdecl(t).replace('const ', '')
+        L.global_text[cname] = 'static const %s %s = @@CONST:%s@@;' % (base_t, cname, cname)
+        return cname
+    grec = L.rec_of_type(t)
+    if grec is not None and not is_ref(t):
+        L.need_record(grec)
+        if grec.empty or grec.dd.get('defaultCtor', {}).get('trivial'):
+            L.global_text[cname] = 'static struct %s %s;' % (grec.cname, cname)
+            return cname
+        raise ExtractError('global %s of class type %s with a non-trivial initializer' % (cname, grec.printed))
     with fl.fullexpr() as fe:
         e = fl.expr(init[0])
     if fe.pre or fe.post:
@@ -309,8 +476,11 @@ def main(argv=None):
             ast = a.inst
         else:
             run_clang(a.inst, a.I or ['/repo/include'], ast)
-        ex = Extractor(ast)
+        ex = Extractor(ast, inst_cpp=None if a.inst.endswith('.json') else a.inst, include_dirs=a.I or ['/repo/include'],
+                       workdir=os.path.dirname(os.path.abspath(a.out)))
         text = ex.lower(a.root, parse_contract_file(a.contracts))
+        if not a.inst.endswith('.json'):
+            text = run_probe(ex, text, a.inst, a.I or ['/repo/include'], os.path.dirname(os.path.abspath(a.out)))
     except ExtractError as e:
         sys.stderr.write('frg2c: extraction aborted: %s\n' % e)
         return 2
